@@ -35,6 +35,11 @@ def ops_for(labels, n, cfg, salt):
         if lab == "b":
             ops.append(["crash"])
             ops.append(["restore"])
+        elif lab == "d":
+            # like 'b', but the next batch is run by a brand-new interpreter, which then dies too
+            ops.append(["crash"])
+            ops.append(["fresh_continue", 1])
+            seg = -1          # the fresh interpreter already ran one batch of the next segment
         elif lab == "c":
             nxt_bs = sizes[i % len(sizes)]       # batch i (0-based) is the next one
             ops.append(["calibrate_crash", 1, rng.randrange(nxt_bs * E)])
@@ -74,15 +79,25 @@ class C05(Check):
             if tier == "thorough" and not heavy and rng.random() < 0.3:
                 n = 5
             mode = "all"
-        return {"engine": "calsim", "config": cfg, "env": {"folder": True, "n_jobs": rng.choice([1, 1, 2])}, "n": n, "mode": mode,
-                "cut_seed": rng.randrange(2 ** 31), "sim_seed": rng.randrange(2 ** 31), "ops": []}
+        scn = {"engine": "calsim", "config": cfg, "env": {"folder": True, "n_jobs": rng.choice([1, 1, 2])}, "n": n, "mode": mode,
+               "cut_seed": rng.randrange(2 ** 31), "sim_seed": rng.randrange(2 ** 31), "ops": []}
+        if scn["env"]["n_jobs"] == 1 and rng.random() < 0.15:
+            scn["fresh"] = True
+        return scn
 
     def labellings(self, scn):
         n = scn["n"]
         if scn.get("only"):
             return [scn["only"]]
+        extra = []
+        if scn.get("fresh"):
+            # a few cuttings in which the continuation runs in a brand-new interpreter ('d')
+            frng = random.Random(scn["cut_seed"] + 1)
+            for _ in range(2):
+                extra.append("".join(frng.choice("d-bd") for _ in range(n - 1)))
+            extra = [x for x in extra if "d" in x] or ["d" * (n - 1)]
         if scn["mode"] == "all":
-            return ["".join(p) for p in itertools.product(LABELS, repeat=n - 1)]
+            return ["".join(p) for p in itertools.product(LABELS, repeat=n - 1)] + extra
         rng = random.Random(scn["cut_seed"])
         stateful = {"pso", "cors", "halton", "rseq", "gp", "rf", "xgb"}
         kinds = [s["cls"] for s in scn["config"]["lineup"]]
@@ -94,7 +109,7 @@ class C05(Check):
                 p = 0.45 if prev in stateful else 0.2
                 lab.append(rng.choice("abc") if rng.random() < p else "-")
             out.append("".join(lab))
-        return sorted(set(out))
+        return sorted(set(out)) + extra
 
     def run(self, scn):
         res = Result()
@@ -120,7 +135,8 @@ class C05(Check):
             res.stats["restores-performed"] += sim.stats["restore"]
             for ch in lab:
                 if ch != "-":
-                    res.stats[{"a": "cut:second-calibrate", "b": "crash@between-batches+restore", "c": "crash@inside-batch+restore"}[ch]] += 1
+                    res.stats[{"a": "cut:second-calibrate", "b": "crash@between-batches+restore", "c": "crash@inside-batch+restore",
+                               "d": "crash+continue-in-fresh-interpreter"}[ch]] += 1
             kinds = "".join(sorted(set(lab) - {"-"}))
             bad = [r for r in sim.op_results if r["exc"] is not None and not r.get("crashed")]
             if bad:
@@ -166,7 +182,7 @@ class C05(Check):
                 c["only"] = lab[:i] + "-" + lab[i + 1:]
                 if set(c["only"]) - {"-"}:
                     yield c
-            if ch == "c":
+            if ch in "cd":
                 c = copy.deepcopy(scn)
                 c["only"] = lab[:i] + "b" + lab[i + 1:]
                 yield c
